@@ -998,6 +998,10 @@ class Shelxfile():
         self._reslist[self.index_of(obj)] = new_line
 
     def index_of(self, obj: Union[Atom, Restraint, Command]) -> int:
+        # Atoms compare equal if their text is equal, so look for this very object first:
+        for num, item in enumerate(self._reslist):
+            if item is obj:
+                return num
         return self._reslist.index(obj)
 
     @property
